@@ -162,6 +162,10 @@ impl TheDrawFont {
             if bytes[o] == 0 {
                 break;
             }
+            // indicator, name length, name, 4 magic bytes, type, spacing, block size, glyph offset table
+            if o + 4 + 1 + FONT_NAME_LEN + 4 + 1 + 1 + 2 + 2 * CHAR_TABLE_SIZE > bytes.len() {
+                return Err(TdfError::FileTooShort.into());
+            }
             let indicator = u32::from_le_bytes(bytes[o..(o + 4)].try_into().unwrap());
             if indicator != FONT_INDICATOR {
                 return Err(TdfError::FontIndicatorMismatch.into());
@@ -228,6 +232,9 @@ impl TheDrawFont {
                     return Err(TdfError::GlyphOutsideFontDataSize(char_offset).into());
                 }
                 char_offset += o;
+                if char_offset + 2 > bytes.len() {
+                    return Err(TdfError::DataOverflow(char_offset).into());
+                }
 
                 let width = bytes[char_offset] as usize;
                 char_offset += 1;
@@ -249,6 +256,9 @@ impl TheDrawFont {
                     if matches!(font_type, FontType::Color) {
                         if ch == 13 {
                             continue;
+                        }
+                        if char_offset >= bytes.len() {
+                            return Err(TdfError::DataOverflow(char_offset).into());
                         }
                         ch = bytes[char_offset];
                         char_offset += 1;
